@@ -39,6 +39,32 @@ type verifCase struct {
 	Env  map[string]string `json:"env"`
 	Cwd  string            `json:"cwd"`
 	Sink int               `json:"sink"`
+	// file name (as the command opens it) -> byte offset from which reading it fails
+	Faults map[string]int `json:"faults"`
+}
+
+var errVerifRead = errors.New("verif: injected read error")
+
+// verifFaultyReader delivers the first `left` bytes of r, then fails
+type verifFaultyReader struct {
+	r    io.Reader
+	left int
+}
+
+func (f *verifFaultyReader) Read(p []byte) (int, error) {
+	if f.left <= 0 {
+		return 0, errVerifRead
+	}
+	if len(p) > f.left {
+		p = p[:f.left]
+	}
+	n, err := f.r.Read(p)
+	f.left -= n
+	if err == io.EOF {
+		// the file is shorter than the fault offset: the fault hits where the data ends
+		return n, errVerifRead
+	}
+	return n, err
 }
 
 type verifResult struct {
@@ -71,9 +97,23 @@ func (s *verifSink) Write(p []byte) (int, error) {
 	return room, errSinkFull
 }
 
-func verifApp(out io.Writer) *cli.App {
+func verifApp(out io.Writer, faults map[string]int) *cli.App {
 	a := GetApp()
 	cu := utils.NewCmdUtils()
+	if len(faults) > 0 {
+		// the production opener, with the readers of the named files failing from the given offset
+		prod := cu.WithFileReaders
+		cu.WithFileReaders = func(fileNames []string, cb func([]io.Reader) error) error {
+			return prod(fileNames, func(rs []io.Reader) error {
+				for i, name := range fileNames {
+					if k, ok := faults[name]; ok && i < len(rs) {
+						rs[i] = &verifFaultyReader{r: rs[i], left: k}
+					}
+				}
+				return cb(rs)
+			})
+		}
+	}
 	cu.WithOptions = func(c *cli.Context, cb func(*options.Options) error) error {
 		o := options.New()
 		o.ReporterConfig.Output = out
@@ -116,7 +156,7 @@ func verifRun(c verifCase) (res verifResult) {
 			return
 		}
 	}
-	if err := verifApp(sink).Run(append([]string{"hranoprovod-cli"}, c.Args...)); err != nil {
+	if err := verifApp(sink, c.Faults).Run(append([]string{"hranoprovod-cli"}, c.Args...)); err != nil {
 		msg := err.Error()
 		if msg == "" {
 			msg = "(empty error)"
